@@ -4,12 +4,13 @@ HEADER = """C04 — Breadth-first search finds a shortest path iff one exists.
    arbitrary pure filter; PureCb covers Method::Empty, ForEach(recorder) and Filter(pure f).
    The generic theorems are stated for every worklist kind k <> KDfs (bfs and both pfs modes); the queue
    hypothesis of coq/proofs/Worklist.v is discharged by StdHeap.stdheap_qspec in SearchGlue.v."""
-REQUIRES = ["From Gdsl.Model Require Import Spec Callback PathApi.", "From Gdsl.Proofs Require Import Worklist Bfs SearchGlue PathApiProof."]
+REQUIRES = ["From Gdsl.Model Require Import Spec Callback PathApi SearchFind.", "From Gdsl.Proofs Require Import Worklist Bfs SearchGlue PathApiProof SearchFindProof."]
 PINS = [
  ("c04_path_sound", "wlq_path_sound", "a returned path starts at the root, ends at the node carrying the target key, is made of accepted stored edges (with their stored values) joined end to start"),
  ("c04_path_complete", "wlq_path_complete", "None only if no node with the target key is reachable through accepted edges"),
  ("c04_path_shortest", "bfs_path_shortest", "no accepted path to the target has fewer edges than the returned one"),
- ("c04_search_agrees", "wlq_find_agrees", "search() returns the target node in exactly the cases in which search_path() returns a path"),
+ ("c04_search_agrees", "search_find'_agrees_bfs_pfs", "search() — the SEPARATELY transcribed find loops of the code (model/SearchFind.v: loop_*_find / recurse_*_find; for pfs `search_path().map(last_node)`) — returns the target node exactly when search_path() returns a path, and that node is where the path ends"),
+ ("c04_find_loops_simulate_path_loops", "find_machine_agrees", "for EVERY callback (no purity needed), heap, root, target and fuel: the find machine ends with the same verdict, the same heap, the same callback state (hence the same closure trace) and the same visited set as the path machine"),
  ("c04_terminates", "wlq_terminates", "fuel_bound suffices: the out-of-fuel outcome cannot occur"),
  ("c04_no_panic", "wlq_no_panic", "backtracking never hits the unwrap() on an empty tree"),
  ("c04_path_iter_nodes", "p_iter_nodes_spec", "Path::iter_nodes / to_vec_nodes (a position-walking iterator) yields the source of the first edge followed by every edge's target"),
